@@ -1558,8 +1558,8 @@ class SimulationTrace(object):
         # file_timestamp = time.strftime("%a, %d %b %Y %H:%M:%S (UTC/GMT)", time.gmtime())
         # print >>file, " ".join(["$date", file_timestamp, "$end"])
         self.internal_names = _VerilogSanitizer('_vcd_tmp_')
-        for wire in sorted(self.wires_to_track, key=lambda w: w.name):  # not in set order
-            self.internal_names.make_valid_string(wire.name)
+        for wire_name in sorted(self._wires):  # not in set order; a wire may be listed twice
+            self.internal_names.make_valid_string(wire_name)
 
         def _varname(wireName):
             """ Converts WireVector names to internal names """
